@@ -241,6 +241,11 @@ pub struct PagedStore {
     pub data: Vec<u8>,
     pub page: usize,
 }
+impl sync::Size for PagedStore {
+    fn size(&self) -> io::Result<Option<u64>> {
+        Ok(Some(self.data.len() as u64))
+    }
+}
 impl sync::ReadAt for PagedStore {
     fn read_at(&self, pos: u64, buf: &mut [u8]) -> io::Result<usize> {
         let pos = pos as usize;
@@ -295,7 +300,16 @@ pub fn shortw(a: &[u128]) -> Vec<u128> {
             let store = PagedStore { data: refenc::outboard(&data, bs, post), page: maxw };
             let src = PagedStore { data: data.clone(), page: maxw + 3 };
             let root = refenc::root(&data);
-            if op == 3 {
+            if op == 5 {
+                let mut out = Vec::new();
+                let r = if post {
+                    sync::encode_ranges(&src, PostOrderOutboard { root, tree: t, data: store }, &ranges, &mut out)
+                } else {
+                    sync::encode_ranges(&src, PreOrderOutboard { root, tree: t, data: store }, &ranges, &mut out)
+                };
+                w.buf = out;
+                enc_rc(&r)
+            } else if op == 3 {
                 let mut out = Vec::new();
                 let r = if post {
                     sync::encode_ranges_validated(&src, PostOrderOutboard { root, tree: t, data: store }, &ranges, &mut out)
